@@ -245,8 +245,70 @@ def sensitivity(tier, rest):
     return 0 if missed == 0 else 1
 
 
+def seeded(tier, rest):
+    """Apply every independently seeded change under /verif/seeded/<id>/ to a scratch copy of the source and run the
+    quick check of its property (plus the neighbouring properties named in meta 'also'): it must raise the alarm.
+    Changes that a later repair neutralised ('-led-to-') must raise none."""
+    only = [a.split("=", 1)[1] for a in rest if a.startswith("only=")]
+    sdir = os.path.join(core.VERIF, "seeded")
+    ids = sorted(d for d in os.listdir(sdir) if os.path.exists(os.path.join(sdir, d, "meta.json")))
+    ids = [d for d in ids if not only or any(o in d for o in only)]
+    results, bad = [], 0
+    t0 = time.time()
+    tmp = os.environ.get("TMPDIR") or "/tmp"
+    for sid in ids:
+        meta = json.load(open(os.path.join(sdir, sid, "meta.json")))
+        neutral = "-led-to-" in sid
+        props = [meta["property"]] + [p for p in meta.get("also", []) if p != meta["property"]]
+        work = tempfile.mkdtemp(prefix="pgsim-seeded-", dir=tmp)
+        try:
+            shutil.copytree(os.path.join("/repo", "src"), os.path.join(work, "src"),
+                            ignore=shutil.ignore_patterns("*.so", "__pycache__", "*.pyc"))
+            pr = subprocess.run(["git", "apply", "--whitespace=nowarn", os.path.join(sdir, sid, "patch.diff")], cwd=work,
+                                stdout=subprocess.PIPE, stderr=subprocess.STDOUT)
+            if pr.returncode != 0:
+                pr = subprocess.run(["patch", "-p1", "--binary", "-d", work, "-i", os.path.join(sdir, sid, "patch.diff")],
+                                    stdout=subprocess.PIPE, stderr=subprocess.STDOUT)
+            if pr.returncode != 0:
+                res = {"id": sid, "applies": False, "caught": False, "note": "patch no longer applies to the current tree"}
+                results.append(res)
+                bad += 0 if neutral else 1
+                print("seeded %-22s does not apply" % sid)
+                continue
+            env = dict(os.environ)
+            env["PYGOM_VERIF_SRC"] = os.path.join(work, "src")
+            env["PGSIM_EVIDENCE_DIR"] = os.path.join(work, "evidence")
+            env["PGSIM_REPLAY_DIR"] = os.path.join(work, "replays")
+            caught_by, oracles = [], []
+            for p_ in props:
+                pc = subprocess.run([os.path.join(core.VERIF, "check"), p_, "quick"], cwd=core.VERIF, env=env,
+                                    stdout=subprocess.PIPE, stderr=subprocess.STDOUT, timeout=7200)
+                out = pc.stdout.decode(errors="replace")
+                viol = [ln for ln in out.splitlines() if ln.startswith("VIOLATION")]
+                if pc.returncode == 1 and viol:
+                    caught_by.append(p_)
+                    oracles += sorted(set(ln.split("oracle=")[1].split()[0] for ln in viol if "oracle=" in ln))
+                    break
+            ok = (not caught_by) if neutral else bool(caught_by)
+            bad += 0 if ok else 1
+            results.append({"id": sid, "property": meta["property"], "applies": True, "caught": bool(caught_by),
+                            "caught_by": caught_by, "oracles": oracles[:6], "neutralised_by_a_repair": neutral})
+            print("seeded %-22s %s %s %s" % (sid, "CAUGHT" if caught_by else ("no alarm (neutralised, as expected)" if neutral else "MISSED"),
+                                             caught_by, oracles[:3]))
+            sys.stdout.flush()
+        finally:
+            shutil.rmtree(work, ignore_errors=True)
+    with open(os.path.join(core.VERIF, "selftest", "seeded.json" if not only else "seeded-partial.json"), "w") as f:
+        json.dump({"seed": core.verif_seed(), "wall_s": round(time.time() - t0, 1), "changes": len(ids), "not_as_expected": bad,
+                   "results": results}, f, indent=1, sort_keys=True)
+    print("seeded: %d changes, %d not as expected, %.0f s" % (len(ids), bad, time.time() - t0))
+    return 0 if bad == 0 else 1
+
+
 def main(name, tier, rest):
     core.boot()
+    if name == "selftest-seeded":
+        return seeded(tier, rest)
     if name == "selftest-determinism":
         return determinism(tier, rest)
     if name == "selftest-sensitivity":
